@@ -26,7 +26,7 @@ Solve == /\ pc = "in"
          /\ pc' = "out" /\ UNCHANGED <<ref, est, par>>
 Next == Solve
 \* constant sets that a .cfg cannot spell (tuples): quick (Q) and thorough (T) variants
-OnTolsQ == {<<1, 1>>}              OnTolsT == {<<1, 1>>, <<2, 1>>}
+OnTolsQ == {<<2, 1>>}              OnTolsT == {<<1, 1>>, <<2, 1>>}
 RatiosQ == {NONE, <<1, 2>>}        RatiosT == {NONE, <<1, 4>>, <<1, 2>>, <<1, 1>>}
 MinTolsQ == {<<1, 1>>}             MinTolsT == {<<1, 2>>, <<1, 1>>}
 PitchTolD == <<50, 1>>
